@@ -2293,6 +2293,122 @@ def run_history(ctx, drv, slot, kind, weighted, user_hm, ops, rank, lrank, case,
     return results
 
 
+KIND_OF = {"Hypergraph": "H", "DirectedHypergraph": "D", "TemporalHypergraph": "T", "MultiplexHypergraph": "M"}
+
+
+def derive_routes(kind, h, pick):
+    """objects that OTHER parts of the library make out of h: [(route, object)]; a route that raises is skipped (whether
+    these routes work is the subject of other properties - C07 only asks what the fingerprint of their results is)"""
+    import os
+    import pickle
+    import tempfile
+    out = []
+
+    def attempt(name, f):
+        try:
+            g = f()
+        except Timeout:
+            raise
+        except Exception:
+            return
+        if isinstance(g, dict):
+            for key, x in list(g.items())[:3]:
+                out.append(("%s[%r]" % (name, key), x))
+        elif g is not None:
+            out.append((name, g))
+    routes = [("pickle", lambda: pickle.loads(pickle.dumps(h)))]
+    if kind != "M":
+        routes.append(("copy()", lambda: h.copy()))
+    if kind == "H":
+        routes.append(("subhypergraph(all nodes)", lambda: h.subhypergraph(list(h.get_nodes()))))
+        routes.append(("subhypergraph(some nodes)", lambda: h.subhypergraph(list(h.get_nodes())[: max(1, len(h.get_nodes()) - 1)])))
+    if kind == "M":
+        routes.append(("aggregated_hypergraph()", lambda: h.aggregated_hypergraph()))
+    if kind == "T":
+        routes.append(("aggregate(2)", lambda: h.aggregate(2)))
+        routes.append(("subhypergraph(0, 3)", lambda: h.subhypergraph(0, 3)))
+
+    def via_file(binary):
+        from hypergraphx.readwrite.save import save_hypergraph
+        from hypergraphx.readwrite.load import load_hypergraph
+        d = tempfile.mkdtemp(prefix="c07_")
+        fn = os.path.join(d, "h.hgx" if binary else "h.json")
+        try:
+            with contextlib.redirect_stdout(io.StringIO()):
+                save_hypergraph(h, fn, binary=binary)
+                return load_hypergraph(fn)
+        finally:
+            try:
+                if os.path.exists(fn):
+                    os.remove(fn)
+                os.rmdir(d)
+            except OSError:
+                pass
+    routes.append(("save/load hgx", lambda: via_file(True)))
+    routes.append(("save/load json", lambda: via_file(False)))
+    for i, (name, f) in enumerate(routes):
+        if (pick >> i) & 1:
+            attempt(name, f)
+    return out
+
+
+def check_derived(ctx, case, kind, h, sub):
+    """an object made by another part of the library out of a history's result and a hypergraph built by plain calls
+    from fresh objects with the content the derived object SHOWS (getters): same content, same container type => same hash"""
+    pick = zlib.crc32(json.dumps(sub.get("history"), default=repr).encode())
+    for route, g in derive_routes(kind, h, pick):
+        k2 = KIND_OF.get(type(g).__name__)
+        if k2 is None:
+            continue
+        ctx.count("derived:" + route.split("[")[0])
+        try:
+            obs = observe(k2, g)
+            sig = signature(k2, obs)
+        except Timeout:
+            raise
+        except Exception:
+            ctx.count("derived_unobservable")
+            continue
+        tw = twin_ops(k2, obs)
+        if tw is None:
+            ctx.count("derived_not_json")
+            continue
+        where = {**sub, "derived": route}
+        try:
+            d = plain_hash(g)
+        except Timeout:
+            raise
+        except Exception as e:
+            ctx.violation(where, "hash_hypergraph raised %r on the hypergraph that %s made out of this history's result "
+                                 "(its getters show a JSON-representable content)" % (e, route))
+            continue
+        try:
+            t = make(k2, tw[0], None)
+            for op in tw[1]:
+                apply_op(k2, t, op)
+            tsg = signature(k2, observe(k2, t))
+            dt = plain_hash(t)
+        except Timeout:
+            raise
+        except Exception:
+            ctx.count("derived_twin_not_built")
+            continue
+        if tsg != sig:
+            ctx.count("derived_twin_not_built")
+            continue
+        ctx.count("derived_twins_compared")
+        if d != dt:
+            ctx.violation(where, "the hypergraph that %s made out of this history's result and a hypergraph built by plain "
+                                 "calls show the same content through the getters but hash differently" % route)
+        try:
+            if plain_hash(g) != d:
+                ctx.violation(where, "hashing the hypergraph that %s made twice gives two digests" % route)
+        except Timeout:
+            raise
+        except Exception:
+            pass
+
+
 def check_case(ctx, drv, case):
     """case = {kind, weighted, user_hm, labels, histories:[ops..], present:[spec..], edits:[{name, weighted, user_hm, ops,
     present}..], free:[{ops, present}..]}"""
@@ -2451,6 +2567,18 @@ def check_case(ctx, drv, case):
                                   ed1["name"], ed2["name"], "equal" if a["sig"] == b["sig"] else "differ",
                                   "equal" if a["digest"] == b["digest"] else "differ"))
             ctx.count("edit_pairs")
+    # objects that other parts of the library make out of the results (copies, pickles, files, sub- and aggregated
+    # hypergraphs): their fingerprint is that of their content
+    for h, d, sub in objs[:len(case["histories"])][:2] if case.get("derive", True) else []:
+        if "history" not in sub:
+            continue
+        signal.alarm(20)
+        try:
+            check_derived(ctx, case, kind, h, sub)
+        except Timeout:
+            ctx.violation(sub, "deriving / hashing objects from this history's result did not finish within 20 s")
+        finally:
+            signal.alarm(0)
     # all objects of the case are still alive: hashing them again, in another order, gives the digests of before
     # (nothing is kept between calls of hash_hypergraph)
     for h, d, sub in list(reversed(objs)) + objs[:2]:
